@@ -35,7 +35,7 @@ class Diff:
 
     def __call__(self, e):
         e = to_real(e) if z3.is_int(e) else e
-        k = e.get_id()
+        k = S.eid(e)
         if k in self.memo:
             return self.memo[k]
         r = self._d(e)
